@@ -223,6 +223,14 @@ class ProjectResolver:
                 quals.append("same-target-imported-under-another-name")
             if any(x[1] == name and x[2] is not owner_ps for x in others + star):
                 quals.append("same-local-name-imported-in-another-scope")
+            # the unit imports the same ORIGINAL name from another module as well (`from a import g as x`,
+            # `from b import g as y`): lian files imports per (unit, original name)
+            froms = [(n, extra) for (ln, n, role, ps, extra) in orc.occs
+                     if role == "def" and isinstance(extra, tuple) and extra and extra[0] == "from"]
+            mine_orig = {(extra[2], extra[1], extra[3]) for n, extra in froms if n == name}
+            if any(extra[2] in {o for o, _, _ in mine_orig} and (extra[2], extra[1], extra[3]) not in mine_orig
+                   for n, extra in froms):
+                quals.append("same-original-name-imported-from-another-module")
             if owner_ps.kind != "module" and (orc.binding_forms(orc.module, name) - {"import"}):
                 quals.append("local-name-is-also-a-module-level-symbol")
             return tgt, quals
@@ -249,7 +257,7 @@ class ProjectResolver:
 QUAL_PRIORITY = ["via-star", "dotted-import-as", "plain-import-of-module-in-another-directory", "from-dots-import",
                  "via-package-init", "reexported-under-alias", "used-before-import",
                  "same-target-imported-under-another-name", "same-local-name-imported-in-another-scope",
-                 "local-name-is-also-a-module-level-symbol",
+                 "same-original-name-imported-from-another-module", "local-name-is-also-a-module-level-symbol",
                  "reexported", "relative-import"]
 
 
